@@ -98,7 +98,8 @@ class Part:
         return ("\r\n".join(lines)).encode("utf-8")
 
 
-def encode_form(parts: List[Part], boundary: bytes, preamble: bytes = b"", epilogue: bytes = b"", lb: bytes = b"\r\n", pad: bytes = b"") -> List[Any]:
+def encode_form(parts: List[Part], boundary: bytes, preamble: bytes = b"", epilogue: bytes = b"", lb: bytes = b"\r\n", pad: bytes = b"",
+                eq: bytes = b"=") -> List[Any]:
     """Items (ints / SInt) of the encoded body. lb: the line break used for the framing (RFC: CRLF; the decoder also
     tolerates bare LF / bare CR)."""
     out: List[Any] = list(preamble)
@@ -106,7 +107,11 @@ def encode_form(parts: List[Part], boundary: bytes, preamble: bytes = b"", epilo
         out += list(lb)
     for p in parts:
         # pad: RFC 2046 transport padding (blanks between the boundary and its line break)
-        out += list(b"--" + boundary + pad + lb + p.header_bytes().replace(b"\r\n", lb) + lb + lb)
+        # eq: how the Content-Disposition parameters spell their '=' (RFC 2045 tokens may be separated by linear white space: `filename = "x"`)
+        hb = p.header_bytes().replace(b"\r\n", lb)
+        if eq != b"=":
+            hb = hb.replace(b'name="', b"name" + eq + b'"')
+        out += list(b"--" + boundary + pad + lb + hb + lb + lb)
         out += list(p.content)
         out += list(lb)
     out += list(b"--" + boundary + b"--" + pad + lb + epilogue)
